@@ -12,7 +12,10 @@ Inductive c20case :=
 | CAppend (i : individual Z) (n_layers : Z) (randomize : bool) (seed : option Z) (s : stream)
           (expected : result (individual Z))
 | CPopulation (n n_layers n_individuals : Z) (randomize : bool) (seed : option Z) (s : stream)
-              (expected : result (list (individual Z))).
+              (expected : result (list (individual Z)))
+(* the constructors' validity checks (post-init), on arbitrary gate tuples incl. negative / out-of-range indices *)
+| CMakeLayer (n : Z) (gates : list gate) (expected : result layer)
+| CMakeIndividual (n : Z) (ls : list layer) (vs : list Z) (expected : result (individual Z)).
 
 Definition same {A} (eqb : A -> A -> bool) (model : result (A * stream)) (expected : result A) : bool :=
   match model, expected with
@@ -29,6 +32,8 @@ Definition run_case (c : c20case) :=
   | CIndividual n nl r seed s _ => (Err ""%string, Some (random_individual n nl r seed s (fuel_for s)), None)
   | CAppend i nl r seed s _ => (Err ""%string, Some (add_random_layers false i nl r seed s (fuel_for s)), None)
   | CPopulation n nl ni r seed s _ => (Err ""%string, None, Some (random_population n nl ni r seed s (fuel_for s)))
+  | CMakeLayer n gates _ => (do l <- make_layer n gates; Ok (l, []), None, None)
+  | CMakeIndividual n ls vs _ => (Err ""%string, Some (do i <- make_individual n ls vs; Ok (i, [])), None)
   end.
 
 Definition check_case (c : c20case) : bool :=
@@ -38,6 +43,8 @@ Definition check_case (c : c20case) : bool :=
   | CAppend i nl r seed s e => same (individual_eqb Z.eqb) (add_random_layers false i nl r seed s (fuel_for s)) e
   | CPopulation n nl ni r seed s e =>
       same (list_eqb (individual_eqb Z.eqb)) (random_population n nl ni r seed s (fuel_for s)) e
+  | CMakeLayer n gates e => result_eqb layer_eqb (make_layer n gates) e
+  | CMakeIndividual n ls vs e => result_eqb (individual_eqb Z.eqb) (make_individual n ls vs) e
   end.
 
 (* which variant of add_random_layers the implementation follows on this case (diagnosis in replays) *)
